@@ -502,6 +502,9 @@ pub fn run_bb(env: &Env, case: &BbCase) -> CaseReport {
             return CaseReport { labels: labels.into_iter().collect(), nontrivial: false, verdict: Verdict::Discard(format!("{} {}: {}", method, raw, e)) };
         }
     };
+    if resp.status == 0 {
+        return CaseReport { labels: labels.into_iter().collect(), nontrivial: false, verdict: Verdict::Discard(format!("{} {}: no response within 10 s", method, raw)) };
+    }
     let no_login = is_no_login(&resp);
     let no_perm = is_no_permission(&resp);
     let no_handler = is_no_handler(&resp);
@@ -530,6 +533,7 @@ pub fn run_bb(env: &Env, case: &BbCase) -> CaseReport {
             // exists for nobody?  same request line with the manager's session
             let mgr = &env.users[0];
             match console_req(&env.a, method, &raw, Some((&mgr.token, SessCarrier::Cookie)), None) {
+                Ok(t) if t.status == 0 => return CaseReport { labels: labels.into_iter().collect(), nontrivial: false, verdict: Verdict::Discard("twin: no response within 10 s".into()) },
                 Ok(t) if is_no_handler(&t) => return fin(labels, nontrivial, None),
                 Ok(t) => return fin(labels, nontrivial, Some(format!("B1: {} but the same request with a manager session gives {}", line, t.short()))),
                 Err(e) => return CaseReport { labels: labels.into_iter().collect(), nontrivial: false, verdict: Verdict::Discard(e) },
